@@ -241,6 +241,9 @@ func c07corpus(c *Ctx) []c07text {
 	}
 	// numbers no 64-bit type can hold: rejecting them is fine, turning them into something else is not
 	out = append(out, c07text{"overflow:0", []byte(`{"a":1e400,"b":[1E+999,-1e400],"c":1}`)})
+	// and numbers too small to be told from zero
+	out = append(out, c07text{"overflow:1", []byte(`{"a":1e-400,"b":[0,0.0],"c":1}`)})
+	out = append(out, c07text{"overflow:2", []byte(`[-2.5E-999]`)})
 	c07texts = out
 	return out
 }
